@@ -43,7 +43,7 @@ def is_telegram_url(url):
     if isinstance(url, SplitResult):
         return bool(re.search(TELEGRAM_DOMAINS_RE, url.hostname))
 
-    return bool(re.match(TELEGRAM_URL_RE, url))
+    return bool(re.match(TELEGRAM_URL_RE, url.lower()))
 
 
 def convert_telegram_url_to_public(url):
